@@ -394,15 +394,12 @@ pub fn go_type_name_for(ty: &tast::Ty) -> String {
             ref_struct_name(elem).replace(['{', '}', ' ', '[', ']', ',', '*'], "_")
         ),
         tast::Ty::TFunc { params, ret_ty } => {
-            let mut s = String::from("TFunc");
-            if params.is_empty() {
-                // not "_unit": `() -> R` and `(unit) -> R` are different types
-                s.push('0');
-            } else {
-                for param in params {
-                    s.push('_');
-                    s.push_str(&go_type_name_for(param));
-                }
+            // the number of parameters is part of the name: `() -> R` and `(unit) -> R` are different
+            // types, and so are `((A, B) -> C) -> D` and `((A) -> B, C) -> D`
+            let mut s = format!("TFunc{}", params.len());
+            for param in params {
+                s.push('_');
+                s.push_str(&go_type_name_for(param));
             }
             s.push('_');
             s.push_str(&go_type_name_for(ret_ty));
@@ -418,5 +415,6 @@ fn dyn_struct_name(trait_name: &str) -> String {
 }
 
 pub fn ref_struct_name(elem: &tast::Ty) -> String {
-    format!("ref_{}_x", go_ident(&encode_ty(elem)).to_lowercase())
+    // the element type as it is spelled: `Foo` and `foo` are different types
+    format!("ref_{}_x", go_ident(&encode_ty(elem)))
 }
